@@ -25,6 +25,7 @@ fn main() {
         "simplify_value" => simplify_value(&input),
         "frame_match" => frame_match(&input),
         "expand_terminates" => expand_terminates(&input),
+        "source_map_tiles" => source_map_tiles(&input),
         other => {
             eprintln!("unknown replay kind {other}");
             std::process::exit(64);
@@ -346,6 +347,58 @@ fn expand_terminates(text: &str) -> Result<(), String> {
                 return Err(format!("expansion failed with an error other than a recursive calibration: {e}"));
             }
         }
+    }
+    Ok(())
+}
+
+/// C19: the top-level source map of a calibration expansion has its entries in source order, and their target
+/// ranges tile the output body; an unmodified entry points to an identical instruction
+fn source_map_tiles(text: &str) -> Result<(), String> {
+    use quil_rs::program::ExpansionResult;
+    let program = Program::from_str(text).map_err(|e| format!("input does not parse: {e}"))?;
+    let (expanded, map) = program.expand_calibrations_with_source_map().map_err(|e| format!("expansion failed: {e}"))?;
+    let plain = program.expand_calibrations().map_err(|e| format!("expansion failed: {e}"))?;
+    if plain != expanded {
+        return Err("expanding with and without a source map gives different programs".to_string());
+    }
+    let source: Vec<&Instruction> = program.body_instructions().collect();
+    let target: Vec<&Instruction> = expanded.body_instructions().collect();
+    let mut next_target = 0usize;
+    let mut last_source: Option<usize> = None;
+    for entry in map.entries() {
+        let s = entry.source_location().0;
+        if let Some(prev) = last_source {
+            if s <= prev {
+                return Err(format!("entries are not in source order: {s} after {prev}"));
+            }
+        }
+        last_source = Some(s);
+        match entry.target_location() {
+            ExpansionResult::Unmodified(t) => {
+                println!("source {s} -> unmodified {}", t.0);
+                if t.0 != next_target {
+                    return Err(format!("unmodified entry for source {s} points to {} but the next uncovered target is {next_target}", t.0));
+                }
+                if target.get(t.0) != source.get(s) {
+                    return Err(format!("unmodified entry for source {s} points to a different instruction"));
+                }
+                next_target += 1;
+            }
+            ExpansionResult::Rewritten(x) => {
+                println!("source {s} -> rewritten {}..{}", x.range().start.0, x.range().end.0);
+                if x.range().start.0 != next_target || x.range().end.0 < x.range().start.0 {
+                    return Err(format!(
+                        "rewritten entry for source {s} covers {}..{} but the next uncovered target is {next_target}",
+                        x.range().start.0,
+                        x.range().end.0
+                    ));
+                }
+                next_target = x.range().end.0;
+            }
+        }
+    }
+    if next_target != target.len() {
+        return Err(format!("the entries cover {next_target} target instructions but the output body has {}", target.len()));
     }
     Ok(())
 }
